@@ -94,7 +94,9 @@ impl BlpHeader {
     /// 0 level means original image.
     pub fn mipmap_pixels(&self, i: usize) -> u32 {
         let (w, h) = self.mipmap_size(i);
-        w * h
+        // dimensions come from the file header: an overflowing product saturates (no level of
+        // that size can be present in the file, so reading it fails with an error)
+        w.saturating_mul(h)
     }
 
     /// Return alpha bits count in encoding
